@@ -19,7 +19,7 @@ CHECKS = {
          "Trusted: the 12-line model is the statement of C04; Debug rendering of Keyboard shows the complete decoder state.", "5/C04"),
  "C05": ("runtime monitor: independent frame rule vs real Ps2Decoder::add_word on all 2048 words (new() and Default::default()), all single/double-bit corruptions of every valid frame, every frame through add_bit on a fresh decoder / after a frame of each class / after clear() from abandoned partial frames, Keyboard::add_word in every scancode prefix state against rule∘twin decoder (child process)",
          "Exhaustive over all 2048 frames (the whole domain the property constrains).", "Trusted: the 8-line frame rule written from the property statement / PS/2 protocol.", "5/C05"),
- "C06": ("runtime monitor: shadow shift register + frame rule + differential against the real add_word; partial-state graph extracted from the real decoder (2047 states × 2 bits), all 2048² ordered frame pairs bit-serially, clear() from every partial state, seeded noisy bit streams with random clear() (also through Keyboard::add_bit)",
+ "C06": ("runtime monitor: shadow shift register + differential against the crate's own whole-word decoding (add_word); partial-state graph extracted from the real decoder (2047 states × 2 bits), all 2048² ordered frame pairs bit-serially, clear() from every partial state, seeded noisy bit streams with random clear()",
          "Exhaustive over every partial state × bit and every ordered frame pair; frames after clear() sampled in quick, exhaustive in thorough; unbounded streams by closure + 10^9 noisy bits (thorough).",
          "Trusted: Ps2Decoder's derived Debug shows its whole state (only used for the 'back to fresh' check; the pair sweep is behavioural).", "5/C06"),
  "C07": ("runtime monitor, reference-table-free: after every event/error the real decoder must == new() (hook) and a cloned twin must answer like a fresh decoder; every result must equal what a fresh decoder returns for the bytes since the last event/error; None-run bound; all 2^24 three-byte streams (quick) / all 2^32 four-byte streams (thorough) for both sets, plus garbage histories",
